@@ -1,5 +1,5 @@
 SPECIFICATION TSpec
-CONSTANT Sched = "fifo"
+CONSTANT Sched = "any"
 CONSTRAINT Progress
 POSTCONDITION Accepted
 CHECK_DEADLOCK FALSE
